@@ -688,7 +688,13 @@ fn run_rawlzma(f: &Fields) -> String {
                     Ok(Ok(_)) => outs.push(format!("ok:{}:{}", rd.used(), out_repr(&out))),
                     _ => {
                         dirty = true;
-                        outs.push(format!("{}:-:{}", verdict(&r), out_repr(&out)))
+                        outs.push(format!("{}:-:{}", verdict(&r), out_repr(&out)));
+                        // `fsdump=1`: hand the object the failed call left behind to the model (which
+                        // reads it back, checks the safety invariant on it and continues from it)
+                        if get(f, "fsdump") == "1" && matches!(r, Ok(Err(_))) {
+                            outs.push(format!("fst:{}", hex(&d.verif_state_bytes())));
+                            dirty = false;
+                        }
                     }
                 }
             }
